@@ -873,3 +873,107 @@ def r_same_op(prog: Program, col: Collector, refs: Refs, cat: Catalogue, rule: s
     if n == 0:
         col.unresolved("funsor.cnf::same-op branch", "no `if red_op is bin_op:` branch reducing the operands found", "funsor/cnf.py")
 
+
+# ---------------------------------------------------------------------- R05.6 scope extrusion of binders needs a freshness test
+
+
+def _dnf(t: ast.AST) -> List[List[ast.AST]]:
+    """disjunctive normal form of a boolean test as lists of conjuncts (and/or only; anything else is an atom)"""
+    if isinstance(t, ast.BoolOp) and isinstance(t.op, ast.Or):
+        out = []
+        for v in t.values:
+            out += _dnf(v)
+        return out
+    if isinstance(t, ast.BoolOp) and isinstance(t.op, ast.And):
+        acc = [[]]
+        for v in t.values:
+            acc = [a + b for a in acc for b in _dnf(v)]
+        return acc
+    return [[t]]
+
+
+def r_scope_extrusion(prog: Program, col: Collector, refs: Refs, cat: Catalogue, rule: str):
+    """A rewrite that builds Contraction(.., .., <vars including v.reduced_vars>, *<terms including v's siblings>) has moved the
+    binders of the inner contraction v outward, over its sibling operands.  That is capture-free only if no sibling mentions a
+    variable bound in v.  Alpha-renaming gives every *constructed* binder a fresh name, but a cons-hashed subterm that occurs
+    twice (v * v) carries the same bound names in both places, so freshness has to be tested (or be vacuous: v binds nothing
+    because `v.red_op is ops.null`, or there is no sibling because the outer `bin_op is ops.null`)."""
+    col.rule(rule, "binders of an inner contraction are moved over sibling operands only under a freshness test", floor=2)
+    seen = set()
+    for r in cat.registrations:
+        f = r.target
+        if f is None or f.fq in seen or not r.pattern or isinstance(f.node, ast.Lambda) or refs.resolve(r.pattern[0]) != "funsor.cnf.Contraction":
+            continue
+        if not (r.registry.startswith("funsor.interpretations.") or r.registry.startswith("funsor.optimizer.")):
+            continue
+        seen.add(f.fq)
+        if len(f.positional) < 4:
+            continue
+        R, B, V, TERMS = f.positional[:4]
+        local_defs: Dict[str, List[ast.AST]] = {}
+        for n in walk_no_nested(f.node):
+            if isinstance(n, ast.Assign) and len(n.targets) == 1 and isinstance(n.targets[0], ast.Name):
+                local_defs.setdefault(n.targets[0].id, []).append(n)
+        cfg = CFG(f.node)
+        for ret in [n for n in walk_no_nested(f.node) if isinstance(n, ast.Return) and n.value is not None]:
+            for c in _contraction_calls(ret.value, refs):
+                if len(c.args) < 4:
+                    continue
+                vars_e = c.args[2]
+                inner = [x for x in ast.walk(vars_e) if isinstance(x, ast.Attribute) and x.attr in ("reduced_vars", "bound") and isinstance(x.value, ast.Name) and x.value.id != "self"]
+                if not inner:
+                    continue
+                vname = inner[0].value.id
+                # do the terms include siblings of v?  (slices of the rule's own `terms`, directly or through a reaching local)
+                term_exprs = list(c.args[3:])
+                for a in list(term_exprs):
+                    for x in ast.walk(a):
+                        if isinstance(x, ast.Name) and x.id in local_defs:
+                            term_exprs += [d.value for d in _reaching(cfg, local_defs[x.id], ret)]
+                sib = any(isinstance(x, ast.Subscript) and isinstance(x.value, ast.Name) and x.value.id == TERMS and isinstance(x.slice, ast.Slice)
+                          for e in term_exprs for x in ast.walk(e))
+                if not sib:
+                    continue
+                construct = f"{f.fq}::{norm(ret)[:110]}"
+                # (i) an explicit freshness test earlier in the same loop body / enclosing the return
+                fresh = False
+                for n in walk_no_nested(f.node):
+                    if isinstance(n, ast.If) and n.lineno < ret.lineno:
+                        txt_nodes = list(ast.walk(n.test))
+                        mentions_bound = any(isinstance(x, ast.Attribute) and x.attr in ("reduced_vars", "bound") and isinstance(x.value, ast.Name) and x.value.id == vname for x in txt_nodes)
+                        mentions_inputs = any(isinstance(x, ast.Attribute) and x.attr in ("input_vars", "inputs") for x in txt_nodes)
+                        # names used in the test that are locals derived from the sibling slices
+                        exits = any(isinstance(b, (ast.Continue, ast.Return)) for b in n.body)
+                        encloses = any(ret is y for b in n.body for y in ast.walk(b))
+                        if mentions_bound and mentions_inputs and (exits or encloses):
+                            same_loop = any(isinstance(a, (ast.For, ast.While)) and any(n is y for y in ast.walk(a)) and any(ret is y for y in ast.walk(a)) for a in walk_no_nested(f.node)) \
+                                or not any(isinstance(a, (ast.For, ast.While)) for a in walk_no_nested(f.node))
+                            if same_loop:
+                                fresh = True
+                if fresh:
+                    col.ok(construct, f"`{vname}`'s binders are moved over its siblings only after a test that no sibling mentions them", f.loc(ret))
+                    continue
+                # (ii) vacuous: every disjunct of the enclosing condition says v binds nothing or there are no siblings
+                vac = False
+                for anc in f.module.ancestors(ret):
+                    if anc is f.node:
+                        break
+                    if isinstance(anc, ast.If) and any(ret is y for b in anc.body for y in ast.walk(b)):
+                        def safe(conj):
+                            if isinstance(conj, ast.Compare) and len(conj.ops) == 1 and isinstance(conj.ops[0], ast.Is):
+                                l, rr = norm(conj.left), norm(conj.comparators[0])
+                                null = {"ops.null", "null"}
+                                if (l == f"{vname}.red_op" and rr in null) or (rr == f"{vname}.red_op" and l in null):
+                                    return True  # v has no reduction: nothing is bound
+                                if (l == B and rr in null) or (rr == B and l in null):
+                                    return True  # the outer contraction has a single operand: no sibling
+                            return False
+                        if all(any(safe(c_) for c_ in disj) for disj in _dnf(anc.test)):
+                            vac = True
+                if vac:
+                    col.ok(construct, f"vacuous: in every case of the enclosing condition `{vname}` binds nothing or has no sibling", f.loc(ret))
+                else:
+                    col.violation(construct, f"the variables bound in `{vname}` are moved outward over its sibling operands without testing that no sibling mentions them: "
+                                  f"a subterm that occurs twice (v * v with v a lazy reduction) carries the same bound names in both places, and the merged scope "
+                                  "captures the sibling's variable (sum_i b[i] * sum_i b[i] becomes sum_i b[i]*b[i])", f.loc(ret))
+
